@@ -315,7 +315,7 @@ def best_stage(rep, tier):
     res = vlib.tlc('MC_Best', cfg_text=cfg.replace('Ns = {3, 4, 5}', 'Ns = {3, 4}' if tier == 'quick' else 'Ns = {3, 4, 5}'), timeout=3000)
     vlib.require_ok(res)
     # longer tables: random behaviours of the same specification
-    sim = vlib.tlc('MC_Best', cfg_text=cfg.replace('Ns = {3, 4, 5}', 'Ns = {5, 6, 7}' if tier == 'quick' else 'Ns = {6, 7, 8, 9}'), simulate='num=%d' % (500 if tier == 'quick' else 6000), depth=3,
+    sim = vlib.tlc('MC_Best', cfg_text=cfg.replace('Ns = {3, 4, 5}', 'Ns = {5, 6, 7}' if tier == 'quick' else 'Ns = {6, 7, 8, 9}'), simulate='num=%d' % (500 if tier == 'quick' else 1500), depth=12,
                    seed=vlib.seed_from_env() + 5, tag='MC_Best_sim', timeout=3000)
     vlib.require_ok(sim)
     if not res.records or not sim.records:
